@@ -6,6 +6,7 @@ import json
 import math
 import multiprocessing as mp
 import os
+import random
 import sys
 import time
 import traceback
@@ -418,15 +419,38 @@ def _finish_path(ob, params, pid, ctx, out, st, listed):
                 # a model on a decision boundary may legitimately differ in doubles: retry with
                 # another model of the same path before calling it a disagreement
                 ok = False
-                for attempt in range(3):
-                    alt = _alt_model(ctx, model, attempt)
+                base = model
+                for attempt in range(4):
+                    alt = _alt_model(ctx, base, attempt)
                     if alt is None:
                         break
-                    inputs2 = symx.model_inputs(ctx, alt)
-                    conc2, _ = run_concrete(ob, params, inputs2)
-                    if conc2 is not None and obs_equal(norm_obs(out.obs, alt), conc2["obs"]):
-                        ok = True
+                    # first an interior point (midpoint of two models of the path), then the other model itself
+                    for cand in (_midpoint_model(ctx, model, alt), alt):
+                        if cand is None:
+                            continue
+                        inputs2 = symx.model_inputs(ctx, cand)
+                        conc2, _ = run_concrete(ob, params, inputs2)
+                        if conc2 is not None and obs_equal(norm_obs(out.obs, cand), conc2["obs"]):
+                            ok = True
+                            break
+                    if ok:
                         break
+                    base = alt
+                if not ok:
+                    # z3 likes vertices of the path region; look for an interior point by random perturbation
+                    rng = random.Random(1234567 + st["paths"])
+                    reals = [n for n, (k, _v) in ctx.inputs.items() if k == "real"]
+                    plan = [(n, sg * sc) for sc in (1e-3, 1e-1, 1e-5) for n in reals for sg in (1, -1)]
+                    plan += [(None, 10.0 ** -(1 + a % 4)) for a in range(12)]
+                    for only, scale in plan:
+                        cand = _perturbed_model(ctx, model, rng, scale, only)
+                        if cand is None:
+                            continue
+                        inputs2 = symx.model_inputs(ctx, cand)
+                        conc2, _ = run_concrete(ob, params, inputs2)
+                        if conc2 is not None and obs_equal(norm_obs(out.obs, cand), conc2["obs"]):
+                            ok = True
+                            break
                 if ok:
                     st["witness_ok"] += 1
                 else:
@@ -469,6 +493,60 @@ def _alt_model(ctx, model, attempt):
         if kind == "real":
             v = model.eval(var, model_completion=True)
             cons.append(var != v)
+    if not cons:
+        return None
+    ctx.solver.push()
+    try:
+        ctx.solver.add(z3.And(*cons))
+        r = ctx.check()
+        return ctx.solver.model() if r == z3.sat else None
+    finally:
+        ctx.solver.pop()
+
+
+def _perturbed_model(ctx, m1, rng, scale, only=None):
+    """A model of the current path near `m1`: one real input moved by `scale` (relative), or all of them
+    randomly; None if that point is outside the path region."""
+    cons = []
+    for name, (kind, var) in ctx.inputs.items():
+        if kind == "str":
+            continue
+        v1 = m1.eval(var, model_completion=True)
+        if kind == "real" and z3.is_rational_value(v1):
+            f = v1.as_fraction()
+            if only is None:
+                delta = Fraction(rng.uniform(-1, 1) * scale * max(1.0, abs(float(f)))).limit_denominator(10**6)
+            elif only == name:
+                delta = Fraction(scale * max(1.0, abs(float(f)))).limit_denominator(10**7)
+            else:
+                delta = 0
+            cons.append(var == symx.frac_to_z3(f + delta))
+        elif kind in ("int", "choice"):
+            cons.append(var == v1)
+    if not cons:
+        return None
+    ctx.solver.push()
+    try:
+        ctx.solver.add(z3.And(*cons))
+        r = ctx.check()
+        return ctx.solver.model() if r == z3.sat else None
+    finally:
+        ctx.solver.pop()
+
+
+def _midpoint_model(ctx, m1, m2):
+    """A model of the current path whose real inputs are the midpoints of two models (an interior point
+    when the path region is convex); None when the midpoint leaves the region."""
+    cons = []
+    for name, (kind, var) in ctx.inputs.items():
+        v1 = m1.eval(var, model_completion=True) if kind != "str" else None
+        if kind == "real":
+            v2 = m2.eval(var, model_completion=True)
+            if z3.is_rational_value(v1) and z3.is_rational_value(v2):
+                mid = (v1.as_fraction() + v2.as_fraction()) / 2
+                cons.append(var == symx.frac_to_z3(mid))
+        elif kind in ("int", "choice"):
+            cons.append(var == v1)
     if not cons:
         return None
     ctx.solver.push()
@@ -613,10 +691,10 @@ def _report(pid, tier, obligations, results, meta, wall, seed):
         lines.append(f"KNOWN-FINDING: property={pid} {fid}: {listed[fid]['what']}")
 
     inconclusive = agg["unknown_final"] + len(nonrepro) + len(vacuous)
-    if errors or mismatches:
-        code = EXIT_HARNESS
-    elif violations:
+    if violations:  # confirmed by replay on the real code: reported whatever else went wrong
         code = EXIT_VIOLATION
+    elif errors or mismatches:
+        code = EXIT_HARNESS
     elif inconclusive:
         code = EXIT_INCONCLUSIVE
     else:
